@@ -208,6 +208,132 @@ fn overflow_family(out: &mut Vec<Case>, rng: &mut Rng) {
     }
 }
 
+/// multi-descriptor operation (`Splice` pipe -> pipe: two `WaitArg`s on the polling driver, one SQE on io_uring) cancelled /
+/// dropped while parked on both ends, then the SECOND descriptor (output end) becomes ready: after the cancellation was
+/// reported nothing may keep the op alive or registered (`C01:cancelled-multifd-op-still-held`), no data moves
+fn multifd_family(out: &mut Vec<Case>, rng: &mut Rng, thorough: bool) {
+    for drv in DRIVERS {
+        for n in [1usize, 2, 3] {
+            for shared in [false, true] {
+                if n == 1 && shared {
+                    continue;
+                }
+                for victim in 0..n {
+                    for route in ["cancel", "drop", "keep"] {
+                        for tail in ["ready-poll", "poll-ready-poll", "pdrop", "poll-pdrop"] {
+                            let mut l = vec![format!("mfd {drv}")];
+                            let pair_of = |i: usize| if shared { 0 } else { i };
+                            for i in 0..n {
+                                l.push(format!("spl {}", pair_of(i)));
+                            }
+                            match route {
+                                "cancel" => l.push(format!("mcancel {victim}")),
+                                "drop" => l.push(format!("mdrop {victim}")),
+                                _ => {}
+                            }
+                            // readiness of a pair only once nothing is parked on it any more
+                            let free = route == "cancel" && (!shared || n == 1);
+                            for t in tail.split('-') {
+                                match t {
+                                    "ready" if free => {
+                                        // io_uring: the AsyncCancel must have been submitted and reaped first (until then the
+                                        // kernel may still legitimately complete the splice)
+                                        if drv == "iour" {
+                                            l.push("mpoll".into());
+                                        }
+                                        l.push(format!("mready {}", pair_of(victim)))
+                                    }
+                                    "ready" => {}
+                                    "poll" => l.push("mpoll".into()),
+                                    _ => l.push("mpdrop".into()),
+                                }
+                            }
+                            if shared && route == "cancel" && !tail.contains("pdrop") {
+                                // the others leave the shared pair one by one, then it becomes ready
+                                for i in (0..n).filter(|i| *i != victim) {
+                                    l.push(format!("mcancel {i}"));
+                                    l.push("mpoll".into());
+                                }
+                                l.push("mready 0".into());
+                                l.push("mpoll".into());
+                            }
+                            l.push(format!("mpop {victim}"));
+                            if rng.chance(1, 2) {
+                                l.push(format!("mdrop {}", rng.below(n as u64)));
+                            }
+                            l.push("end".into());
+                            out.push(case(format!("mfd/{drv}/n{n}{}/v{victim}/{route}/{tail}", if shared { "s" } else { "" }), l));
+                        }
+                    }
+                }
+            }
+        }
+    }
+    // random programs over at most 3 splices on at most 2 pairs
+    for i in 0..(if thorough { 3000 } else { 150 }) {
+        let drv = *rng.pick(&DRIVERS);
+        let mut l = vec![format!("mfd {drv}")];
+        // per op: (pair, key held, cancelled, cancellation reaped by a poll)
+        let mut ops: Vec<(usize, bool, bool, bool)> = vec![];
+        let mut pairs = 0usize;
+        let mut hot = [false; 2];
+        let mut alive = true;
+        let len = 4 + rng.below(10) as usize;
+        for _ in 0..len {
+            match rng.below(10) {
+                0..=2 if alive && ops.len() < 3 => {
+                    let p = if pairs == 0 || (pairs < 2 && rng.chance(1, 2)) { pairs } else { rng.below(pairs as u64) as usize };
+                    if p < 2 && !hot[p] {
+                        if p == pairs {
+                            pairs += 1;
+                        }
+                        l.push(format!("spl {p}"));
+                        ops.push((p, true, false, false));
+                    }
+                }
+                3..=4 if alive && !ops.is_empty() => {
+                    let i = rng.below(ops.len() as u64) as usize;
+                    l.push(format!("mcancel {i}"));
+                    if ops[i].1 {
+                        ops[i] = (ops[i].0, false, true, false);
+                    }
+                }
+                5 if !ops.is_empty() => {
+                    let i = rng.below(ops.len() as u64) as usize;
+                    l.push(format!("mdrop {i}"));
+                    ops[i].1 = false;
+                }
+                6 if !ops.is_empty() => l.push(format!("mpop {}", rng.below(ops.len() as u64))),
+                7 if pairs > 0 => {
+                    let p = rng.below(pairs as u64) as usize;
+                    // only when every op on the pair has been cancelled (nothing parked there)
+                    if ops.iter().all(|o| o.0 != p || (o.2 && (drv == "poll" || o.3))) || !alive {
+                        l.push(format!("mready {p}"));
+                        if alive {
+                            hot[p] = true;
+                        }
+                    }
+                }
+                8 if alive && rng.chance(1, 3) => {
+                    l.push("mpdrop".into());
+                    alive = false;
+                }
+                _ => {
+                    l.push("mpoll".into());
+                    if alive {
+                        for o in ops.iter_mut() {
+                            o.3 = o.2;
+                        }
+                    }
+                }
+            }
+        }
+        l.push("mpoll".into());
+        l.push("end".into());
+        out.push(case(format!("mfd/rand/{i}/{drv}"), l));
+    }
+}
+
 fn generate(tier: &str, rng: &mut Rng) -> Vec<Case> {
     let mut out = vec![];
     let thorough = tier == "thorough";
@@ -215,6 +341,7 @@ fn generate(tier: &str, rng: &mut Rng) -> Vec<Case> {
     overflow_family(&mut out, rng);
     fill_family(&mut out, rng);
     stale_key_family(&mut out, rng);
+    multifd_family(&mut out, rng, thorough);
     if thorough {
         single_op_family(&mut out, rng, &CAPS);
     } else {
